@@ -105,9 +105,13 @@ func c02MapModel(maxPre, steps int) {
 			r.Meta().Expires = now + 1000
 			e.expires = now + 1000
 		}
-		if rt.Bool(tag + ".deleted") {
+		switch rt.Choice(tag+".deleted", 3) {
+		case 1:
 			r.Meta().Deleted = now - 5
 			e.deleted = true
+		case 2:
+			// pending relative expiry (negative value): the record is visible
+			r.Meta().Deleted = -60
 		}
 		_, _ = c.storage.Put(r)
 		model[key] = e
@@ -118,7 +122,14 @@ func c02MapModel(maxPre, steps int) {
 		key := c02Keys[rt.Choice(tag+".key", len(c02Keys))]
 		e := model[key]
 		vis := c02Visible(e, now)
-		switch rt.Choice(tag, 8) {
+		switch rt.Choice(tag, 9) {
+		case 8: // relative expiry: takes effect with the next write, record stays visible
+			err := db.SetRelativateExpiry("t:"+key, 60)
+			if vis {
+				rt.Assert(err == nil, "model/setrelativeexpiry-visible-ok")
+			} else {
+				rt.Assert(errors.Is(err, ErrNotFound), "model/setrelativeexpiry-invisible-is-not-found")
+			}
 		case 0: // get
 			r, err := db.Get("t:" + key)
 			if vis {
